@@ -11,6 +11,7 @@
 const void *g_model; double g_minl, g_maxl;
 #define MODEL ((struct MTYPE *)g_model)
 #include "gen.c"
+#if !defined(VARIANT_PLUME) && !defined(VARIANT_DIST)
 struct Point2 Objects_NaturalCoordinate_get_surface_point__contract(struct Objects_NaturalCoordinate *this_)
 __CPROVER_requires(1) __CPROVER_assigns() __CPROVER_ensures(1)
 ;
@@ -24,21 +25,45 @@ __CPROVER_ensures(this_ == &MODEL->max_depth_surface ==> SAMEL(__CPROVER_return_
 #define MINL (this_->min_depth_surface.constant_value ? this_->min_depth : g_minl)
 #define MAXL (this_->max_depth_surface.constant_value ? this_->max_depth : g_maxl)
 #define INRANGE (depth <= this_->max_depth && depth >= this_->min_depth && depth <= MAXL && depth >= MINL)
+#define SURF_OK (IS_BOOL(this_->min_depth_surface.constant_value) && IS_BOOL(this_->max_depth_surface.constant_value))
+#define MPARAMS struct MTYPE *this_, struct Point3 *position, struct Objects_NaturalCoordinate *nat, double depth, double gravity, struct arr_double_3 velocity_, double feature_min_depth, double feature_max_depth
+#elif defined(VARIANT_PLUME)
+#define INRANGE (depth <= this_->max_depth && depth >= this_->min_depth)
+#define SURF_OK 1
+#define MPARAMS struct MTYPE *this_, struct Point3 *position, struct Objects_NaturalCoordinate *nat, double depth, double gravity, struct arr_double_3 velocity_, double feature_min_depth, double feature_max_depth, double relative_distance_from_center
+#else
+#ifdef IS_FAULT
+#define DIST __CPROVER_fabs(dist->distance_from_plane)
+#else
+#define DIST (dist->distance_from_plane)
+#endif
+#define INRANGE (DIST <= this_->max_depth && DIST >= this_->min_depth)
+#define SURF_OK 1
+#define MPARAMS struct MTYPE *this_, struct Point3 *position, double depth, double gravity, struct arr_double_3 velocity_, double feature_min_depth, double feature_max_depth, struct Utilities_PointDistanceFromCurvedPlanes *dist, struct Features_FeatureUtilities_AdditionalParameters *ap
+#endif
 #define OP (this_->operation)
 #define IS_REPLACE (OP == E_Operations_REPLACE || OP == E_Operations_REPLACE_DEFINED_ONLY)
 #define COMP_OK(k) ((!INRANGE ? SAME(__CPROVER_return_value.e[k], velocity_.e[k]) : 1) \
   && ((INRANGE && IS_REPLACE) ? SAME(__CPROVER_return_value.e[k], this_->velocity.e[k]) : 1) \
   && ((INRANGE && OP == E_Operations_ADD) ? SAME(__CPROVER_return_value.e[k], FPXA(velocity_.e[k] + this_->velocity.e[k])) : 1) \
   && ((INRANGE && OP == E_Operations_SUBTRACT) ? SAME(__CPROVER_return_value.e[k], FPXA(velocity_.e[k] - this_->velocity.e[k])) : 1))
-struct arr_double_3 MCONTRACT(struct MTYPE *this_, struct Point3 *position, struct Objects_NaturalCoordinate *nat, double depth,
-                              double gravity, struct arr_double_3 velocity_, double feature_min_depth, double feature_max_depth)
+struct arr_double_3 MCONTRACT(MPARAMS)
 __CPROVER_requires(g_model == this_ && wb_thrown == 0)
-__CPROVER_requires(IS_BOOL(this_->min_depth_surface.constant_value) && IS_BOOL(this_->max_depth_surface.constant_value))
+__CPROVER_requires(SURF_OK)
 __CPROVER_requires(OP == E_Operations_REPLACE || OP == E_Operations_ADD || OP == E_Operations_SUBTRACT || OP == E_Operations_REPLACE_DEFINED_ONLY)
 __CPROVER_assigns(wb_thrown)
 __CPROVER_ensures(wb_thrown || COMP_OK(0))
 __CPROVER_ensures(wb_thrown || COMP_OK(1))
 __CPROVER_ensures(wb_thrown || COMP_OK(2))
 ;
-void h_velocity(void) { struct MTYPE m; struct Point3 p; struct Objects_NaturalCoordinate nat; double depth, g, fmin, fmax; struct arr_double_3 v;
-  HAVOC(g_model); HAVOC(g_minl); HAVOC(g_maxl); MFUNC(&m, &p, &nat, depth, g, v, fmin, fmax); REACHABLE(); }
+void h_velocity(void) { struct MTYPE m; struct Point3 p; double depth, g, fmin, fmax, rel; struct arr_double_3 v;
+  HAVOC(g_model); HAVOC(g_minl); HAVOC(g_maxl);
+#if defined(VARIANT_DIST)
+  struct Utilities_PointDistanceFromCurvedPlanes d; struct Features_FeatureUtilities_AdditionalParameters ap;
+  MFUNC(&m, &p, depth, g, v, fmin, fmax, &d, &ap);
+#elif defined(VARIANT_PLUME)
+  struct Objects_NaturalCoordinate nat; MFUNC(&m, &p, &nat, depth, g, v, fmin, fmax, rel);
+#else
+  struct Objects_NaturalCoordinate nat; MFUNC(&m, &p, &nat, depth, g, v, fmin, fmax);
+#endif
+  REACHABLE(); }
